@@ -208,11 +208,11 @@ def gen_cases(ck):
     def img(n):
         return bytes(rng.bytes(n))
 
-    def add(kind, L, en, sign, ops, addr=None, flags=1, image=None, pad=8, cachable=None, port_swap=False):
+    def add(kind, L, en, sign, ops, addr=None, flags=1, image=None, pad=8, cachable=None, port_swap=False, **extra):
         base = rng.choice([0, 0x1000, 0x7FFFFFF0, (1 << 40) + 3])
         a = base + rng.below(pad) if addr is None else addr
         image = img(L + 2 * pad) if image is None else image
-        node = dict(kind=kind, sign=sign)
+        node = dict(kind=kind, sign=sign, **extra)
         c = reg_case(a, L, en, base, image, [node], ops, flags=flags,
                      cachable=cachable or ("NoCache" if flags & 1 else "WriteThrough"), port_swap=port_swap)
         if not flags & 1:
@@ -255,6 +255,14 @@ def gen_cases(ck):
                 add("int", L, en, sign, [("s", 0, 1), ("v", 0), ("s", 0, -1 if sign else 255)])
             # cached run (default WriteThrough) gives the same values and writes
             add("int", 4, en, sign, [("s", 0, 5), ("v", 0), ("v", 0), ("s", 0, 7), ("v", 0)], flags=0)
+    # the byte order and signedness are what the description declares - LittleEndian / Unsigned when it says nothing -
+    # whatever <Representation> the feature carries
+    for rep in (None, "Linear", "Logarithmic", "Boolean", "PureNumber", "HexNumber", "IPV4Address", "MACAddress"):
+        for L in (1, 2, 4, 8):
+            for en, sign in ((0, 0), (1, 0), (0, 1), (1, 1)):
+                v = 0x0102030405060708 >> (8 * (8 - L))
+                add("int", L, en, sign, [("v", 0), ("s", 0, v), ("v", 0), ("rr", 0, L), ("s", 0, 1), ("v", 0)],
+                    implicit=1, repr=rep)
     # floats
     specials = [0.0, -0.0, 1.0, -1.0, 1.5, 0.1, 1e-45, 1.401298464324817e-45, 1e-40, 1.1754943508222875e-38,
                 3.4028234663852886e38, 3.4028235677973366e38, 3.4028235677973362e38, 3.402823669209385e38, 1e39,
